@@ -3,7 +3,8 @@
 import json, os, re, sys, glob
 name, prop, needs = sys.argv[1], sys.argv[2], sys.argv[3]
 d = os.path.join(os.path.dirname(os.path.abspath(__file__)), "..", "seeded", name)
-conf = open(os.path.join(d, "confirm.log")).read()
+cp = os.path.join(d, "confirm.log")
+conf = open(cp).read() if os.path.exists(cp) else ""
 m = re.search(r"suite_with_change_rc=(\d+) demo_with_change_rc=(\d+) demo_without_change_rc=(\d+)", conf)
 checks = open(os.path.join(d, "checks.txt")).read()
 caught = sorted(set(re.findall(r"VIOLATION property=(C\d+)", checks)))
@@ -11,8 +12,9 @@ meta = {
     "property": prop, "patch": "patch.diff",
     "demonstration": sorted(os.path.basename(x) for x in glob.glob(os.path.join(d, "demo_*.rs"))),
     "needs_to_manifest": needs,
-    "author": "independent sub-agent given only the property text and a scratch worktree of /repo",
-    "confirmed_in_scratch_worktree": {
+    "author": "independent sub-agent given only the property text and a scratch worktree of /repo" if m else
+              "revert of a fix: commit of /repo (the defect it repaired returns)",
+    "confirmed_in_scratch_worktree": {"note": "the defect's witnesses are in corpus/00_defects_and_shapes.hist and known_findings.json (fixed: entries)"} if not m else {
         "existing_suite_with_change_rc": int(m.group(1)), "demo_with_change_rc": int(m.group(2)),
         "demo_without_change_rc": int(m.group(3)),
         "commands": ["cargo test --offline --test <demo> (unmodified source): pass",
